@@ -138,6 +138,18 @@ reg("C15", "exploration",
     "DESIGN.md section 3, C15")
 
 
+reg("C16", "exploration",
+    "Generated-input search, absolute and differential: conceptual tables built by construction (columns a sparse subset of "
+    "1..12, 0..10 rows, index suffixes of 1..4 components with sub-identifiers up to 2^32-1, per-cell presence, neighbours "
+    "directly before / after, a sibling whose arc textually extends the table's arc, or nothing after the table) are fetched "
+    "through Client.table, Client.bulktable (bulk 1..30, generated conformant GETBULK truncation), PyWrapper.table and "
+    "PyWrapper.bulktable against the reference agent; every variant must return exactly the rows computed from the database "
+    "(one per index, '0' = dotted index, one entry per present cell, nothing from outside the table), hence all variants agree.",
+    "Trusts lib/vagent.py; rows are compared as a multiset (order unspecified); table() takes the entry OID and bulktable() the table OID as documented.",
+    "Hypothesis property-based testing with an absolute database oracle across four fetch variants",
+    "DESIGN.md section 3, C16")
+
+
 def main():
     present = sorted(os.path.basename(p)[:3].upper()
                      for p in glob.glob(os.path.join(VERIF, "checks", "c[0-9][0-9]_*.py")))
